@@ -16,6 +16,37 @@ from .tape import digest_of
 
 FLAVOURS = ("extended", "testtools", "2.7", "2.6", "twisted", "stream", "none")
 
+# which RunTest drives the program: the property speaks of "running a TestCase"; the Twisted
+# runners are RunTest variants and the scripted stages (which return None) are valid under them
+RUNNERS = ("plain", "syncdeferred", "async", "asyncbroken")
+
+
+def draw_runner(tape):
+    return tape.weighted("config", [(6, "plain"), (1, "syncdeferred"), (2, "async"), (1, "asyncbroken")], "runner")
+
+
+_twisted_ready = []
+
+
+def _runner_factory(runner):
+    """Returns (run_test_with, reactor-or-None)."""
+    if runner == "plain":
+        return None, None
+    from testtools.twistedsupport import _runtest as rt
+    if not _twisted_ready:
+        _twisted_ready.append(1)
+        try:   # keep Twisted from printing buffered "Unhandled Error" reports to stderr
+            from twisted.logger import globalLogBeginner
+            globalLogBeginner.beginLoggingTo([lambda event: None], redirectStandardIO=False, discardBuffer=True)
+        except Exception:   # pragma: no cover
+            pass
+    if runner == "syncdeferred":
+        return rt.SynchronousDeferredRunTest, None
+    from .reactor import SimReactor, Sim
+    reactor = SimReactor(Sim())
+    cls = rt.AsynchronousDeferredRunTestForBrokenTwisted if runner == "asyncbroken" else rt.AsynchronousDeferredRunTest
+    return cls.make_factory(reactor=reactor, timeout=1000.0), reactor
+
 KIND_OF_METHOD = {
     "addSuccess": "success", "addFailure": "failure", "addError": "error",
     "addSkip": "skip", "addExpectedFailure": "xfail", "addUnexpectedSuccess": "uxsuccess",
@@ -115,10 +146,15 @@ class Sim:
         self.case = None
 
 
-def simulate(prog, flavour, nruns=1, run_test_with=None):
+def simulate(prog, flavour, nruns=1, run_test_with=None, runner="plain"):
     sim = Sim()
     sim.prog = prog
     sim.flavour = flavour
+    sim.runner = runner
+    reactor = None
+    if run_test_with is None and runner != "plain":
+        run_test_with, reactor = _runner_factory(runner)
+    sim.reactor = reactor
     sim.model = Model(prog)
     world = World()
     env = Env(prog, world)
@@ -148,10 +184,20 @@ def simulate(prog, flavour, nruns=1, run_test_with=None):
         else:
             target = make_target(flavour, world)
             result = target
+        import signal as _signal
+        saved_sig = None
+        if reactor is not None:
+            saved_sig = {s_: _signal.getsignal(s_) for s_ in (_signal.SIGINT, _signal.SIGTERM, _signal.SIGCHLD)}
         try:
             rr.returned = case.run(result)
         except BaseException as e:   # noqa: the property is about what propagates
             rr.raised = e
+        finally:
+            if saved_sig is not None:
+                for s_, h_ in saved_sig.items():
+                    _signal.signal(s_, h_)
+                from testtools.twistedsupport import _runtest as _rt
+                _rt._log_observer.flushErrors()
         rr.events = world.events
         rr.exec_log = [e[1:] for e in world.exec_log]
         rr.exec_seq = [e[0] for e in world.exec_log]
@@ -507,7 +553,7 @@ def oracle_matchers(sim, rr, out):
 def history_hash(sim):
     m = sim.model
     return digest_of(
-        sim.flavour,
+        sim.flavour, getattr(sim, "runner", "plain"),
         [(r.kind, r.stage) for r in m.R], m.force, [e[0] for e in m.log],
         [[k for k, _ in rr.outcomes] for rr in sim.runs],
         [type(rr.raised).__name__ for rr in sim.runs],
@@ -516,7 +562,7 @@ def history_hash(sim):
 
 def sample_of(sim):
     return {
-        "flavour": sim.flavour,
+        "flavour": sim.flavour, "runner": getattr(sim, "runner", "plain"),
         "program": jsonable({k: sim.prog[k] for k in ("class_skip", "method_skip", "xfail_decorator", "handlers", "stages", "cleanups", "fixtures")}),
         "model_raised": [r.as_list() for r in sim.model.R],
         "force_failure": sim.model.force,
